@@ -336,6 +336,24 @@ int main(int argc, char **argv) {
             RET("\"pos\":%lld", (long long)real_lseek(fds[slot(t[1])], 0, SEEK_CUR));
         } else if(!strcmp(op, "seek")) {
             RET("\"pos\":%lld", (long long)real_lseek(fds[slot(t[1])], atoll(t[2]), SEEK_SET));
+        } else if(!strcmp(op, "poke")) {
+            /* poke F off data : overwrite bytes of an open file behind the library's back (harness I/O, not interposed) */
+            size_t l;
+            char *d = get_data(t[3], &l);
+            ssize_t w = real_pwrite(fds[slot(t[1])], d, l, atoll(t[2]));
+            free(d);
+            RET("\"rc\":%zd", w);
+        } else if(!strcmp(op, "fput")) {
+            /* fput F path : replace the whole content of an open file by the content of `path` */
+            size_t l;
+            char a[600];
+            snprintf(a, sizeof(a), "f:%s", t[2]);
+            char *d = get_data(a, &l);
+            int fd = fds[slot(t[1])];
+            int r1 = real_ftruncate(fd, 0);
+            ssize_t w = real_pwrite(fd, d, l, 0);
+            free(d);
+            RET("\"rc\":%zd,\"trunc\":%d", w, r1);
         } else if(!strcmp(op, "noout")) {
             no_out = atoi(t[1]);
             RET("\"rc\":%d", 1);
